@@ -264,6 +264,9 @@ func repack(arch []entry, g *graph, pool map[string][]byte, comp, tarfmt string)
 	for _, e := range arch {
 		name := concrete(e.Name, g)
 		h := &tar.Header{Name: name, Mode: 0o644, Format: format}
+		if format == tar.FormatUSTAR && (len(name) > 99 || len(concrete(e.Ln, g)) > 99) {
+			h.Format = tar.FormatPAX // USTAR cannot hold the name of a sha512 blob
+		}
 		switch e.Kind {
 		case "file":
 			data, ok := contentOf(e.C, g, pool)
